@@ -329,6 +329,24 @@ func checkC13(p *Prog, r *Report) {
 			if "field" == x.Kind && "C2" == x.Field.Name() {
 				fromC2 = true
 			}
+			/* req.URL of the request made from conf.C2 — the very
+			request which is then sent. */
+			if "field" == x.Kind && "URL" == x.Field.Name() && nil != x.Base {
+				newReq := func(n string) bool { return "net/http.NewRequest" == n || "net/http.NewRequestWithContext" == n }
+				for _, y := range valueRoots(x.Base, newReq) {
+					if "field" == y.Kind && "C2" == y.Field.Name() {
+						sent := false
+						for _, a := range callArgs(req.Common()) {
+							if stripConv(resolveCell(a), false) == stripConv(resolveCell(x.Base), false) {
+								sent = true
+							}
+						}
+						if sent {
+							fromC2 = true
+						}
+					}
+				}
+			}
 		}
 		if !fromC2 {
 			continue
